@@ -14,7 +14,7 @@ import (
 	"mossverif/run"
 )
 
-// c12Step: round | walk | revert | reopen
+// c12Step: round | walk | revert | reopen | hold | revert-held
 type c12Step struct {
 	K     string
 	B     []*model.Batch `json:",omitempty"` // round: batches executed before the directed merge+persist
@@ -67,6 +67,35 @@ func genC12(r *eng.Rng, th bool) *c12Case {
 		}
 	}
 	c.Steps = append(c.Steps, c12Step{K: "walk"}, c12Step{K: "revert", Depth: r.Intn(4)}, c12Step{K: "walk"})
+	if r.Chance(1, 3) {
+		// keep the store snapshot of some round open across later rounds
+		// (and compactions), then try to revert to it
+		var rounds []int
+		for i, st := range c.Steps {
+			if st.K == "round" {
+				rounds = append(rounds, i)
+			}
+		}
+		at := rounds[r.Intn(len(rounds))] + 1
+		end := at + 1 + r.Intn(6)
+		var ns []c12Step
+		held := false
+		for i, st := range c.Steps {
+			if i == at {
+				ns = append(ns, c12Step{K: "hold"})
+				held = true
+			}
+			if held && (i >= end || st.K == "revert" || st.K == "reopen") {
+				ns = append(ns, c12Step{K: "revert-held"})
+				held = false
+			}
+			ns = append(ns, st)
+		}
+		if held {
+			ns = append(ns, c12Step{K: "revert-held"})
+		}
+		c.Steps = ns
+	}
 	return c
 }
 
@@ -76,6 +105,10 @@ type c12Run struct {
 	sr   *run.ShardResult
 	pers uint64
 	comp uint64
+
+	held     moss.Snapshot // store snapshot kept open by a "hold" step
+	heldK    int
+	heldFull uint64 // full compactions the store had run when it was taken
 }
 
 func (x *c12Run) counters() (uint64, uint64) {
@@ -183,6 +216,11 @@ func runC12(cs *c12Case, scratch string, idx int, sr *run.ShardResult) (class, d
 	}
 	defer e.CloseAll()
 	x := &c12Run{e: e, sr: sr}
+	defer func() {
+		if x.held != nil {
+			x.held.Close()
+		}
+	}()
 	k0, _ := x.storeK()
 	_ = k0
 	reopen := func() (string, string) {
@@ -239,6 +277,99 @@ func runC12(cs *c12Case, scratch string, idx int, sr *run.ShardResult) (class, d
 			e.World.TruncateTo(k)
 			if c, d := x.walk(); c != "" {
 				return c + "/after-reopen", d, i
+			}
+		case "hold":
+			if x.held != nil {
+				x.held.Close()
+				x.held = nil
+			}
+			hs, err := e.Store.Snapshot()
+			if err != nil || hs == nil {
+				return "snapshot-error", fmt.Sprint(err), i
+			}
+			k, d := x.snapK(hs)
+			if k < 0 {
+				hs.Close()
+				return "store-not-a-prefix", d, i
+			}
+			x.held, x.heldK, x.heldFull = hs, k, e.StoreStat("total_compactions")
+		case "revert-held":
+			if x.held == nil {
+				continue
+			}
+			held := x.held
+			x.held = nil
+			if err := e.CloseColl(); err != nil {
+				held.Close()
+				return "close-error", err.Error(), i
+			}
+			if e.BgErrCount() > 0 {
+				held.Close()
+				return "unprovoked-background-error", e.LastBgErr(), i
+			}
+			if c, d := x.afterRound(); c != "" {
+				held.Close()
+				return c, d, i
+			}
+			// The held snapshot still reads what it read when it was taken.
+			if k, d := x.snapK(held); k != x.heldK {
+				held.Close()
+				return "held-snapshot-changed", fmt.Sprintf("snapshot taken at prefix %d now reads prefix %d (%s)", x.heldK, k, d), i
+			}
+			before, _ := x.storeK()
+			compacted := e.StoreStat("total_compactions") > x.heldFull
+			var rerr error
+			ferr := eng.Safe(func() error { rerr = e.Store.SnapshotRevert(held); return nil })
+			held.Close()
+			if ferr != nil {
+				return "revert-fault", ferr.Error(), i
+			}
+			sr.Counters["history.reverts_to_held"]++
+			sr.Units[fmt.Sprintf("revert-held:compacted-since=%v/ok=%v", compacted, rerr == nil)]++
+			wantK := x.heldK
+			if rerr != nil {
+				if !compacted {
+					return "revert-error/held", fmt.Sprintf("SnapshotRevert to a held snapshot (prefix %d, history %v, no full compaction since) failed: %v", wantK, x.hist, rerr), i
+				}
+				// refused (the snapshot lives in a superseded file): nothing may have changed
+				wantK = before
+				if k, d := x.storeK(); k != before {
+					return "refused-revert-changed-store", fmt.Sprintf("SnapshotRevert failed (%v) but the store went from prefix %d to %d (%s)", rerr, before, k, d), i
+				}
+			} else {
+				if k, d := x.storeK(); k != wantK {
+					return "revert-wrong-content", fmt.Sprintf("after SnapshotRevert to the held prefix %d the store exposes prefix %d (%s)", wantK, k, d), i
+				}
+				e.World.TruncateTo(wantK)
+				x.hist = []int{wantK}
+			}
+			// reopen: what the store said must be what the directory holds
+			if err := e.CloseStore(); err != nil {
+				return "close-error", err.Error(), i
+			}
+			if !eng.WaitQuiescent(e.D.Watchdog) {
+				return "inconclusive", "pending removals", i
+			}
+			if err := e.Open(); err != nil {
+				return "reopen-after-revert-failed", err.Error(), i
+			}
+			x.pers, x.comp = x.counters()
+			s, err := e.Coll.Snapshot()
+			if err != nil {
+				return "snapshot-error", err.Error(), i
+			}
+			kk, dd := x.snapK(s)
+			s.Close()
+			if kk != wantK {
+				return "revert-not-durable", fmt.Sprintf("SnapshotRevert to the held prefix %d returned %v, the store then exposed prefix %d, but after a reopen the collection shows prefix %d (%s)", x.heldK, rerr, wantK, kk, dd), i
+			}
+			if rerr != nil {
+				// unpersisted tail (if any) is gone with the close; history as the file has it
+				e.World.TruncateTo(wantK)
+				k, _ := x.storeK()
+				_ = k
+			} else if c, d := x.walk(); c != "" {
+				return c + "/after-revert", d, i
 			}
 		case "revert":
 			// Revert needs the collection closed (documented).
@@ -345,7 +476,7 @@ func init() {
 	ck := &run.Check{
 		Prop:  "C12",
 		Level: "exploration",
-		Rule: "steered store programs of 3-19 persistence rounds (1-2 batches each, child collections in half of the cases, compaction disabled / leveled / forced) interleaved with full SnapshotPrevious walks, reopens, and SnapshotRevert (after Collection.Close) to a target 0-4 steps back followed by reopen, further rounds, walks and reverts; the walk must yield, newest first, exactly the recorded store contents (one entry per total_persists increment, list restarted at each compaction and at each revert) and then nil; after a revert Store.Snapshot, the reopened collection and the content later batches build on must be the target. distinct_nontrivial = distinct walk depths, (revert depth/history length) pairs and round kinds.",
+		Rule: "steered store programs of 3-19 persistence rounds (1-2 batches each, child collections in half of the cases, compaction disabled / leveled / forced) interleaved with full SnapshotPrevious walks, reopens, and SnapshotRevert (after Collection.Close) to a target 0-4 steps back followed by reopen, further rounds, walks and reverts; the walk must yield, newest first, exactly the recorded store contents (one entry per total_persists increment, list restarted at each compaction and at each revert) and then nil; after a revert Store.Snapshot, the reopened collection and the content later batches build on must be the target. A third of the cases also keep one round's store snapshot open across later rounds and compactions and then revert to it: it must still read what it read; without a full compaction since, the revert must succeed; whenever SnapshotRevert reports success the target must be the store's content and what a reopen yields, and when it refuses (snapshot in a superseded file) nothing may have changed. distinct_nontrivial = distinct walk depths, (revert depth/history length) pairs and round kinds.",
 		MinUnits:    8,
 		Assumptions: []string{"a revert restarts the history like a compaction does (what a walk across a revert footer must yield is not stated by the property)"},
 	}
